@@ -69,6 +69,15 @@ func c08Init() {
 			"@@\nvar x expression\n@@\n switch v {\n-case x, ...:\n+case ...:\n   bump(1)\n }\n",
 			"@@\nvar x identifier\n@@\n-for x, ... := range m {\n+for ... := range m {\n   ...\n }\n",
 			"@@\nvar x expression\n@@\n-x, ... := <-ch\n+... := <-ch\n",
+			// many elisions in nested function types behind a leading one: more than a dozen places where the
+			// pattern text is augmented before it is parsed, several of them at the same offset
+			"@@\n@@\n-...\n-foo(...)\n-foo(...)\n-foo(func(..., ..., ..., func(..., ..., ..., ..., ...)){})\n+bar()\n",
+			"@@\n@@\n-foo(func(..., ..., func(..., ..., ...), ...) (..., error) { ... }, func(..., ..., ..., ..., ...) {}, ...)\n+bar(...)\n",
+			"@@\nvar f identifier\n@@\n-...\n-f(...)\n-f(..., func(..., ...) (..., ...) {}, ...)\n-f(func(..., func(..., func(..., ..., ...), ...), ...) {})\n-f(...)\n+f()\n",
+			"@@\n@@\n ...\n-type T struct {\n-  ...\n-  F func(..., ..., func(..., ..., ..., ...), ...) (..., error)\n-  ...\n-}\n+type T struct{}\n",
+			// an expression pattern that rewrites a string literal, followed by a change with an import guard
+			"@@\n@@\n-\"foo\"\n+42\n\n@@\n@@\n import \"bar\"\n\n-x()\n+y()\n",
+			"@@\n@@\n-foo\n+bar.baz\n\n@@\n@@\n import \"example.com/old/foo\"\n\n-x()\n+y()\n",
 		)
 		// targets chosen for construct coverage
 		c08Targets = []string{
@@ -84,6 +93,7 @@ func c08Init() {
 			"package p\n\nfunc f() {\n\ta = foo()\n\tb, c = foo()\n\ta, b = 1, 2\n\tvar d = foo()\n\tvar e, g = foo()\n\tswitch v {\n\tcase 1:\n\t\tbump(1)\n\tcase 2, 3:\n\t\tbump(1)\n\t}\n\tfor k := range m {\n\t\tuse(k)\n\t}\n\tfor k, v := range m {\n\t\tuse(k, v)\n\t}\n\tv := <-ch\n\tw, ok := <-ch\n}\n",
 			"package p\n\n//line other.go:100\nfunc f() (int, error) {\n\terr = foo(\n\t\t1,\n\t)\n\tif err != nil {\n\t\treturn 0, err\n\t}\n\tx := target(a,\n\t\tb)\n\tuse(x)\n//line gen.y:7\n\tfor i := 0; i < n; i++ {\n\t\tbump(i)\n\t}\n\t/*line :900*/ bump(\n\t\t2,\n\t)\n\treturn foo.Client{}, nil\n}\n",
 		)
+		c08Targets = append(c08Targets, "package a\n\nimport \"foo\"\n\nimport bar \"example.com/old/foo\"\n\nfunc f() {\n\tfoo.Bar(\"foo\", bar.X)\n\tx()\n}\n")
 		for s := int64(1); s <= 6; s++ {
 			gg := gen.NewG(rand.New(rand.NewSource(s)))
 			gg.Comment = s%2 == 0
